@@ -139,12 +139,9 @@ class Network:
                 # This is a new address, or our previous parent has been removed
                 self._all_addresses[address] = WalkableAddress(peer.public_key.key_to_bin(), service, new_style)
                 intro_cache = self.reverse_intro_lookup.get(peer, None)
-                if intro_cache:
+                if intro_cache is not None and address not in intro_cache:
+                    # Only extend a complete cached list: a missing entry is rebuilt from scratch when it is queried.
                     intro_cache.append(address)
-                else:
-                    self.reverse_intro_lookup[peer] = [address]
-                    if len(self.reverse_intro_lookup) > self.reverse_intro_cache_size:
-                        self.reverse_intro_lookup.popitem(False)  # Pop the oldest cache entry
 
             self.add_verified_peer(peer)
 
@@ -192,6 +189,7 @@ class Network:
                     # This would be a programmer "error", but we will allow it.
                     self.verified_peers.add(peer)
                     self.verified_by_public_key_bin[peer.public_key.key_to_bin()] = peer
+                    self._add_to_service_caches(peer)
                     list(map(methodcaller("on_peer_added", peer), self.peer_observers))
             elif all(address not in self.blacklist for address in peer.addresses.values()):
                 for address in peer.addresses.values():
@@ -200,7 +198,17 @@ class Network:
                 if peer not in self.verified_peers:
                     self.verified_peers.add(peer)
                     self.verified_by_public_key_bin[peer.public_key.key_to_bin()] = peer
+                    self._add_to_service_caches(peer)
                     list(map(methodcaller("on_peer_added", peer), self.peer_observers))
+
+    def _add_to_service_caches(self, peer: Peer) -> None:
+        """
+        Make a newly verified peer show up in the cached peer lists of the services it already advertised.
+        """
+        for service in self.services_per_peer.get(peer.public_key.key_to_bin(), ()):
+            service_cache = self.reverse_service_lookup.get(service, None)
+            if service_cache is not None and peer not in service_cache:
+                service_cache.append(peer)
 
     def register_service_provider(self, service_id: Service, overlay: Overlay) -> None:
         """
@@ -284,6 +292,9 @@ class Network:
         """
         with self.graph_lock:
             peer = self.reverse_ip_lookup.pop(address, None)
+            if peer is not None and (peer not in self.verified_peers or address not in peer.addresses.values()):
+                # The cached peer was removed or no longer uses this address.
+                peer = None
             if not peer:
                 for p in self.verified_peers:
                     if address in p.addresses.values():
@@ -316,13 +327,17 @@ class Network:
         :return: a list of the introduced addresses (ip, port)
         """
         introductions = self.reverse_intro_lookup.get(peer, None)
-        if introductions is None:
-            with self.graph_lock:
-                introductions = [k for k, v in self._all_addresses.items()
-                                 if v.introduced_by == peer.public_key.key_to_bin()]
-                self.reverse_intro_lookup[peer] = introductions
-                if len(self.reverse_intro_lookup) > self.reverse_intro_cache_size:
-                    self.reverse_intro_lookup.popitem(False)  # Pop the oldest cache entry
+        with self.graph_lock:
+            key_material = peer.public_key.key_to_bin()
+            if introductions is None:
+                introductions = [k for k, v in self._all_addresses.items() if v.introduced_by == key_material]
+            else:
+                # Addresses may have been removed or re-introduced by another peer since they were cached.
+                introductions = [address for address in introductions if address in self._all_addresses
+                                 and self._all_addresses[address].introduced_by == key_material]
+            self.reverse_intro_lookup[peer] = introductions
+            if len(self.reverse_intro_lookup) > self.reverse_intro_cache_size:
+                self.reverse_intro_lookup.popitem(False)  # Pop the oldest cache entry
         return introductions
 
     def remove_by_address(self, address: Address) -> None:
@@ -341,6 +356,7 @@ class Network:
             removed_peers = self.verified_peers - new_verified_peers
             self.verified_peers = new_verified_peers
             for peer in removed_peers:
+                self.verified_by_public_key_bin.pop(peer.public_key.key_to_bin(), None)
                 list(map(methodcaller("on_peer_removed", peer), self.peer_observers))
 
     def remove_peer(self, peer: Peer) -> None:
